@@ -49,6 +49,9 @@ def setup_source(src: str):
 def run_in_child(fn, arg, wall_limit: float = RUN_WALL_LIMIT):
     """Execute fn(arg) in a forked child; return ('ok', result) | ('error', text)."""
     r, w = os.pipe()
+    # a watchdog thread armed in this process must not be alive across fork(): its lock state would be copied into
+    # the child, where re-arming would wait for a thread that does not exist there
+    faulthandler.cancel_dump_traceback_later()
     pid = os.fork()
     if pid == 0:
         status = 0
